@@ -35,3 +35,15 @@ chk("C43", "E2", "exploration",
     "deterministic simulation: op sequences over aliased RelayMap handles under the cooperative scheduler with wait-for deadlock detection, BTreeMap reference model",
     "Seeded exploration of insert/remove/extend/with_auth_token/==/get/len sequences over a pool of maps containing clones that share storage; each result and the full contents of every map are compared with a BTreeMap model per alias class after every step; a lock that can never be acquired is reported by the scheduler as a deadlock.",
     "Single caller thread; lock interception via the cfg(iroh_verif) RwLock shim wrapping std::sync::RwLock.")
+chk("C26", "E2", "exploration",
+    "deterministic simulation: RelayActor and ActiveRelayActor caller threads on HomeRelayWatch under the cooperative scheduler, switch point between the read and the write of set_status",
+    "Seeded exploration of all interleavings (at lock operations and at the named point inside set_status) of home-relay choices with status updates from current and demoted relay actors; oracle: after every RelayActor step and at the end the advertised URL is the most recently chosen one.",
+    "Callers are threads issuing the same calls the two actors make; Watchable's internal lock is not intercepted.")
+chk("C30", "E2", "exploration",
+    "deterministic simulation: concurrent publish/publish/add threads on AddressLookupServices under the cooperative scheduler with switch points at every registry lock op and inside service callbacks",
+    "Seeded exploration of interleavings of 1..2 publishers and 0..2 adders; oracle: after all threads finish, every service (pre-registered or added concurrently) was last given exactly what the registry hands to a freshly added probe service, with the address filter applied; deadlocks are detected by the scheduler.",
+    "Services are recording stubs; 'latest' is defined by the registry's own last_data.")
+chk("C18", "E2", "exploration",
+    "deterministic simulation: concurrent get/lookup threads on the three AddrMaps under the cooperative scheduler, host-bit entropy shrunk so the uniqueness loop iterates, bijection oracle over the recorded history",
+    "Seeded exploration of 2..4 threads x <=4 ops with collisions forced by a 2..3 bit host space; oracle over the invoke/return history: each key's address never changes, no address is shared, reverse lookup returns the owning key and never misses an address handed out before it began, every address classifies as its own kind.",
+    "No full linearizability search: get/lookup each hold the lock for their whole body, so the history invariants above are the linearizability conditions for this API.")
